@@ -674,4 +674,5 @@ func c24(r *core.Run) {
 	}
 	// known / connected lists are PSlices: a batched AddPeers must not drop or duplicate peers
 	psliceRules(r, "C24")
+	deleteAtIndexLint(r, "C24.L1", "a peer that should be dropped from a list stays when it directly follows another removed entry", "pkg/topology/kademlia", "pkg/topology/pslice")
 }
